@@ -7,6 +7,7 @@ from typing import Any, Dict, List, Optional
 
 from .. import codec, docs, links, parity
 from ..cfg import CFG
+from .. import shape
 from ..model import AnchorMissing, NotConst, Repo, attr_chain, norm, walk_no_nested
 from . import c12
 
@@ -95,7 +96,7 @@ def structural_handlers(repo: Repo, rep, P: str, secs):
                           f"{cid} must load Pattern.{attr} (the data layout at PEND depends on it)", r.where if r else "")
     # PPAR: PatternClone(source=source)
     pc = secs["clone"].reader.get("PPAR")
-    if pc is not None and any("PatternClone(source=" in s for s in pc.stmts):
+    if pc is not None and any(shape.keyword(c, "source") is not None or c.args for c in shape.calls_to(pc.node, "PatternClone")):
         rep.ok(f"{P}.R2", f"{pc.rel}:PatternCloneReader.process_PPAR", "PatternClone(source=source)")
     else:
         rep.violation(f"{P}.R2", f"{secs['clone'].reader_cls.file.rel}:PatternCloneReader.process_PPAR",
@@ -121,9 +122,21 @@ def structural_handlers(repo: Repo, rep, P: str, secs):
     styp = mr.get("STYP")
     if styp is not None:
         src = " ".join(styp.stmts)
-        need = ["MODULE_CLASSES[mtype]", "new_module.name = self.object.name", "self._object = new_module"]
-        missing = [n for n in need if n not in src]
-        if not missing and "self.object.flags" in src:
+        missing = []
+        if not any(isinstance(n, ast.Subscript) and norm(n.value).split(".")[-1] == "MODULE_CLASSES" for n in ast.walk(styp.node)):
+            missing.append("MODULE_CLASSES[<type name>]")
+        installs = [n for n in ast.walk(styp.node) if isinstance(n, ast.Assign) and any(norm(t) == "self._object" for t in n.targets)]
+        newv = norm(installs[-1].value) if installs else None
+        if newv is None:
+            missing.append("self._object = <new module>")
+        carried = {}
+        for fld in ("name", "flags"):
+            carried[fld] = any(any(isinstance(t, ast.Attribute) and t.attr == fld and norm(t.value) == newv for t in n.targets)
+                               and f"self.object.{fld}" in norm(n.value) for n in ast.walk(styp.node) if isinstance(n, ast.Assign)) or \
+                any(shape.keyword(c, fld) is not None and f"self.object.{fld}" in norm(shape.keyword(c, fld)) for c in shape.calls(styp.node))
+            if not carried[fld]:
+                missing.append(f"<new module>.{fld} = self.object.{fld}")
+        if not missing:
             rep.ok(f"{P}.R2", f"{styp.rel}:{styp.cls}.process_STYP", "cls = MODULE_CLASSES[mtype]; flags/name carried over")
         else:
             rep.violation(f"{P}.R2", f"{styp.rel}:{styp.cls}.process_STYP", src[:200],
@@ -145,7 +158,8 @@ def structural_handlers(repo: Repo, rep, P: str, secs):
     for cid, reader in (("PDTA", "PatternReader"), ("PPAR", "PatternCloneReader"), ("SFFF", "ModuleReader")):
         r = sv.get(cid)
         src = " ".join(r.stmts) if r else ""
-        if r is not None and "self.rewind(data)" in src and f"{reader}(self.f" in src:
+        if r is not None and any(c.args and norm(c.args[0]) == (shape.params(r.node) or ["data"])[0] for c in shape.calls_to(r.node, "rewind")) \
+                and any(c.args and norm(c.args[0]) == "self.f" for c in shape.calls_to(r.node, reader)):
             rep.ok(f"{P}.R1", f"{r.rel}:{r.cls}.process_{cid}", f"rewind; {reader}(self.f…)", "section reader re-reads the opening chunk")
         else:
             rep.violation(f"{P}.R1", f"{secs['project'].reader_cls.file.rel}:SunVoxReader.process_{cid}", src[:160],
@@ -213,7 +227,8 @@ def _one_guard(repo, rep, P, wcon, w, ge, gd, defaults, secs, secname):
         eof = sv.methods.get("process_end_of_file")
         from .. import inline
         src = norm(inline.normalize(repo, sv, eof, aliases=True)) if eof else ""
-        if ".in_link_slots" in src and "in_link_slots.append" in src:
+        eofn = inline.normalize(repo, sv, eof, aliases=True) if eof else None
+        if eofn is not None and any(m.table == "in_link_slots" and m.kind in ("append", "extend", "setidx") for m in links.function_muts(eofn)):
             from ..guards import canon
             ok_guard = canon(ge) == "exists_notin(module.in_link_slots;[-1, 0])"
             if ok_guard:
@@ -465,7 +480,19 @@ def clone_rule(repo: Repo, rep, P: str):
                       "Container.clone must be write-then-read of the same buffer", f"{rel}:{fn.lineno}")
     wt = repo.own_method(cont, "write_to")
     src = norm(wt)
-    if "for chunk in self.chunks()" in src and "write_chunk(file, *chunk)" in src:
+    fparam = (shape.params(wt) or ["file"])[0]
+    wt_ok = False
+    for lp in shape.for_loops_over(wt, "chunks"):
+        if norm(lp.iter) != "self.chunks()":
+            continue
+        tnames = [norm(e) for e in lp.target.elts] if isinstance(lp.target, ast.Tuple) else None
+        for c in shape.calls_to(lp, "write_chunk"):
+            rest = c.args[1:]
+            if c.args and norm(c.args[0]) == fparam and (
+                    (len(rest) == 1 and isinstance(rest[0], ast.Starred) and norm(rest[0].value) == norm(lp.target)) or
+                    (tnames is not None and [norm(a) for a in rest] == tnames)):
+                wt_ok = True
+    if wt_ok:
         rep.ok(f"{P}.R7", f"{rel}:Container.write_to", "for chunk in self.chunks(): write_chunk(file, *chunk)")
     else:
         rep.violation(f"{P}.R7", f"{rel}:Container.write_to", src[:160], "write_to must write every chunk of chunks()", f"{rel}:{wt.lineno}")
